@@ -70,6 +70,12 @@ def oracle_logprob(x, loc, P, r):
     return float(-0.5 * (r * np.log(2 * np.pi) - np.sum(np.log(lam_r))) - 0.5 * quad), Q[:, idx], lam_r, Q
 
 
+def pts_for_scaled(rng, loc, P, r):
+    lam, Q = np.linalg.eigh(P)
+    idx = np.argsort(lam)[::-1][:r]
+    return loc + (rng.normal(size=r) / np.sqrt(lam[idx])) @ Q[:, idx].T
+
+
 def case_mvn(case, res):
     import jax
     import jax.numpy as jnp
@@ -120,6 +126,49 @@ def case_mvn(case, res):
         ctors["from_penalty_smooth()"] = lambda: MVND.from_penalty_smooth(locj, jnp.asarray(1 / var, ft), Kj)
     if not (auto_ok_P and auto_ok_K):
         res.skip("auto-rank ambiguous in working precision")
+    # a user-supplied tolerance: the same distribution family at another overall scale of the precision matrix, where
+    # the zero / non-zero split of the eigenvalues is the one the *given* tol defines, not the default 1e-6
+    scaled = None
+    sc_ = [1e-7, 1e4, 1e-3][case["idx"] % 3]
+    Ps = P * (sc_ / max(normP, 1e-300))          # spectral norm sc_
+    lam_s = np.sort(np.linalg.eigvalsh(Ps))[::-1]
+    noise = m * (2.0 ** -52 if x64 else 2.0 ** -23) * sc_ * 8
+    if lam_s[r - 1] > 1e3 * noise:
+        utol = float(np.sqrt(lam_s[r - 1] * noise))
+        Psj = jnp.asarray(Ps, ft)
+        scaled = {"init(tol)": lambda: MVND(locj, Psj, tol=utol), "init(tol,rank)": lambda: MVND(locj, Psj, rank=r, tol=utol)}
+        w_tol = dict(w, precision_norm=sc_, tol=utol, smallest_nonzero_eigenvalue=float(lam_s[r - 1]))
+        for name, mk in scaled.items():
+            d = mk()
+            for i in range(3):
+                x = pts_for_scaled(rng, loc, Ps, r)
+                exp, *_ = oracle_logprob(x, loc, Ps, r)
+                lp = float(d.log_prob(jnp.asarray(x, ft)))
+                res.mon("mvn_user_tolerance_honoured")
+                if not np.isfinite(lp) or abs(lp - exp) > tol(exp) * 4:
+                    res.violation("mvn-user-tol", f"{name}: precision with spectral norm {sc_:g}, user tol {utol:.3g}: log_prob={lp} "
+                                  f"but the range-space Gaussian density (rank {r}) = {exp}", w_tol)
+                    break
+    else:
+        res.skip("no tolerance separates the eigenvalues at this scale")
+    # integer-typed precision matrix (D'D of an integer difference matrix)
+    if style == "rw":
+        # (JAX promotes int32 to float32 and int64 to float64 whatever the x64 flag says: int64 in the x64 cases)
+        Ki = np.rint(K).astype(np.int64 if x64 else np.int32)
+        if np.array_equal(Ki, K):
+            lamKi, QKi = np.linalg.eigh(K)
+            for name, mk in {"init(int prec)": lambda: MVND(locj, jnp.asarray(Ki)),
+                             "init(int prec,rank)": lambda: MVND(locj, jnp.asarray(Ki), rank=r)}.items():
+                d = mk()
+                for i in range(3):
+                    x = pts_for_scaled(rng, loc, K, r)
+                    exp, *_ = oracle_logprob(x, loc, K, r)
+                    lp = float(d.log_prob(jnp.asarray(x, ft)))
+                    res.mon("mvn_integer_precision")
+                    if not np.isfinite(lp) or abs(lp - exp) > tol(exp) * 4:
+                        res.violation("mvn-int-precision", f"{name}: integer-typed precision matrix: log_prob={lp} but the "
+                                      f"range-space Gaussian density = {exp}", w)
+                        break
     # evaluation points: from the distribution (float64 construction), plus null-space shifts
     npts = 6
     z = rng.normal(size=(npts, r))
@@ -211,7 +260,16 @@ def case_mvn_sample(case, res):
     Q0 = Q[:, order[r:]]
     n = case["n"]
     how = case["idx"] % 3
-    if how == 0:
+    if style == "rw" and case["idx"] % 2 == 1:
+        # the integer matrix D'D itself as precision (var = 1), integer-typed
+        var, P, how = 1.0, K, 3
+        lam, Q = np.linalg.eigh(P)
+        order = np.argsort(lam)[::-1]
+        Qr, lam_r = Q[:, order[:r]], lam[order[:r]]
+        Q0 = Q[:, order[r:]]
+        d = MVND(jnp.asarray(loc, ft), jnp.asarray(np.rint(K).astype(np.int64 if x64 else np.int32)))
+        res.ev("sampling_with_integer_typed_precision")
+    elif how == 0:
         d = MVND(jnp.asarray(loc, ft), jnp.asarray(P, ft))
     elif how == 1:
         d = MVND.from_penalty(jnp.asarray(loc, ft), jnp.asarray(var, ft), jnp.asarray(K, ft))
